@@ -195,6 +195,9 @@ def forms_for(k: int, level_extra: int, module_level: bool) -> list:
         ("from-name", {"kind": "from", "level": 0, "module": f"proj.t.m{k}", "names": [("thing", None)]}),
         ("from-submodule", {"kind": "from", "level": 0, "module": "proj.t", "names": [(f"m{k}", None)]}),
         ("from-mixed", {"kind": "from", "level": 0, "module": "proj.t", "names": [(f"m{k}", "y"), ("thing2", None)]}),
+        ("from-mixed-name-first", {"kind": "from", "level": 0, "module": "proj.t", "names": [("thing2", None), (f"m{k}", None)]}),
+        ("from-two-submodules", {"kind": "from", "level": 0, "module": "proj.t", "names": [(f"m{k}", None), (f"m{(k + 1) % N_PER_FILE}", "z")]}),
+        ("rel2-mixed-name-first", {"kind": "from", "level": len(d2), "module": "t", "names": [("thing", "th"), (f"m{k}", None)]}),
         ("from-root-submodule", {"kind": "from", "level": 0, "module": "proj", "names": [(f"b{k}", None)]}),
         ("rel1-module", {"kind": "from", "level": len(d1), "module": None, "names": [(f"s{k}", None)]}),
         ("rel1-from-name", {"kind": "from", "level": len(d1), "module": f"s{k}", "names": [("thing", None)]}),
@@ -309,6 +312,8 @@ def projects(draw):
                     names = [(last, draw(st.sampled_from([None, "al"])))]
                     if draw(st.booleans()):
                         names.append(("thing", None))
+                    if draw(st.booleans()):
+                        names.reverse()
                     site = {"kind": "from", "level": 0, "module": base, "names": names, "form": "from-submodule"}
                 else:
                     star = depth == 0 and draw(st.integers(0, 4)) == 0
